@@ -45,6 +45,14 @@ func (c *Ctx) methodIn(pkg *ssa.Package, typ, name string) *ssa.Function {
 			// promoted/wrapper: not declared on this type
 		}
 	}
+	// renamed?  exactly one method of the type that does not exist in the reference tree and has the very signature
+	// the reference tree's method had (kept in baseline_funcs.txt only by name: so compare with sibling evidence - the
+	// old name is gone and a single new method of that receiver appeared)
+	if fn := c.renamedMethodByMap(pkg, nt, name); fn != nil {
+		c.note("anchor %s.%s not found; the single new method %s of that type is taken to be its new name", typ, name, fn.Name())
+		c.touched(fn.String())
+		return fn
+	}
 	c.fail("anchor not found: method %s.%s", typ, name)
 	return nil
 }
@@ -69,6 +77,11 @@ func (c *Ctx) methodOpt(pkg *ssa.Package, typ, name string) (fn *ssa.Function) {
 func (c *Ctx) funcIn(pkg *ssa.Package, name string) *ssa.Function {
 	fn := pkg.Func(name)
 	if fn == nil {
+		if r := c.renamedFuncByMap(pkg, name); r != nil {
+			c.note("anchor %s not found; the single new package-level function %s with the callers of the old one is taken to be its new name", name, r.Name())
+			c.touched(r.String())
+			return r
+		}
 		c.fail("anchor not found: func %s.%s", pkg.Pkg.Name(), name)
 	}
 	c.touched(fn.String())
@@ -86,6 +99,17 @@ func (c *Ctx) fieldIn(pkg *ssa.Package, typ, name string) *types.Var {
 	for i := 0; i < st.NumFields(); i++ {
 		if st.Field(i).Name() == name {
 			return st.Field(i)
+		}
+	}
+	// renamed?
+	for nu, old := range renamedFieldsOf(pkg.Pkg.Path(), typ, st) {
+		if old == name {
+			for i := 0; i < st.NumFields(); i++ {
+				if st.Field(i).Name() == nu {
+					c.note("anchor field %s.%s not found; the new field %s of that struct is taken to be its new name", typ, name, nu)
+					return st.Field(i)
+				}
+			}
 		}
 	}
 	c.fail("anchor not found: field %s.%s", typ, name)
@@ -2294,6 +2318,9 @@ func (c *Ctx) newStateRule(rule string) {
 			if baselineFields[pkg.Pkg.Path()+"."+tn+"."+f.Name()] {
 				continue
 			}
+			if _, renamed := renamedFieldsOf(pkg.Pkg.Path(), tn, st)[f.Name()]; renamed {
+				continue
+			}
 			n++
 			var reader ssa.Instruction
 			for _, fn := range c.modFuncs {
@@ -2326,4 +2353,145 @@ func (c *Ctx) newStateRule(rule string) {
 		}
 	}
 	c.note("new-state rule: %d fields / variables not in the reference tree examined", n)
+}
+
+// renamedMethod: the reference tree's method `name` of type nt is gone; if exactly one baseline method of that type is
+// missing and exactly one new method of that type exists, the new one is the old one renamed.
+func (c *Ctx) renamedMethod(pkg *ssa.Package, nt *types.Named, name string) *ssa.Function {
+	typeName := nt.Obj().Name()
+	missing := 0
+	prefixes := []string{"(*" + pkg.Pkg.Path() + "." + typeName + ").", "(" + pkg.Pkg.Path() + "." + typeName + ")."}
+	present := map[string]*ssa.Function{}
+	for _, t := range []types.Type{types.NewPointer(nt), nt} {
+		ms := c.prog.MethodSets.MethodSet(t)
+		for i := 0; i < ms.Len(); i++ {
+			if fn := c.prog.MethodValue(ms.At(i)); fn != nil && fn.Synthetic == "" {
+				present[fn.Name()] = fn
+			}
+		}
+	}
+	for full := range baselineFuncs {
+		for _, pre := range prefixes {
+			if strings.HasPrefix(full, pre) {
+				if _, ok := present[strings.TrimPrefix(full, pre)]; !ok {
+					missing++
+				}
+			}
+		}
+	}
+	var fresh []*ssa.Function
+	for n, fn := range present {
+		isBase := false
+		for _, pre := range prefixes {
+			if baselineFuncs[pre+n] {
+				isBase = true
+			}
+		}
+		if !isBase {
+			fresh = append(fresh, fn)
+		}
+	}
+	if missing == 1 && len(fresh) == 1 {
+		return fresh[0]
+	}
+	return nil
+}
+
+func (c *Ctx) renamedFunc(pkg *ssa.Package, name string) *ssa.Function {
+	missing := 0
+	var fresh []*ssa.Function
+	pre := pkg.Pkg.Path() + "."
+	for full := range baselineFuncs {
+		if strings.HasPrefix(full, pre) && !strings.Contains(strings.TrimPrefix(full, pre), ".") && !strings.HasPrefix(full, "(") {
+			if pkg.Func(strings.TrimPrefix(full, pre)) == nil {
+				missing++
+			}
+		}
+	}
+	for n, m := range pkg.Members {
+		if fn, ok := m.(*ssa.Function); ok && fn.Synthetic == "" && !baselineFuncs[pre+n] && n != "init" {
+			fresh = append(fresh, fn)
+		}
+	}
+	if missing == 1 && len(fresh) == 1 {
+		return fresh[0]
+	}
+	return nil
+}
+
+func (c *Ctx) renamedMethodByMap(pkg *ssa.Package, nt *types.Named, name string) *ssa.Function {
+	for _, pre := range []string{"(*" + pkg.Pkg.Path() + "." + nt.Obj().Name() + ").", "(" + pkg.Pkg.Path() + "." + nt.Obj().Name() + ")."} {
+		if nu, ok := renamedAnchors[pre+name]; ok {
+			newName := nu[strings.LastIndex(nu, ".")+1:]
+			for _, t := range []types.Type{types.NewPointer(nt), nt} {
+				if sel := c.prog.MethodSets.MethodSet(t).Lookup(pkg.Pkg, newName); sel != nil {
+					if fn := c.prog.MethodValue(sel); fn != nil && fn.Synthetic == "" {
+						return fn
+					}
+				}
+			}
+		}
+	}
+	return nil
+}
+
+func (c *Ctx) renamedFuncByMap(pkg *ssa.Package, name string) *ssa.Function {
+	if nu, ok := renamedAnchors[pkg.Pkg.Path()+"."+name]; ok {
+		return pkg.Func(nu[strings.LastIndex(nu, ".")+1:])
+	}
+	return nil
+}
+
+// renamedFieldsOf: fields of the struct that are fields of the reference tree under a new name (new name -> old name):
+// the only missing field and the only new one, or - with several - the pairs whose type is unique on both sides.
+func renamedFieldsOf(pkgPath, typ string, st *types.Struct) map[string]string {
+	pre := pkgPath + "." + typ + "."
+	var missing []string
+	for full := range baselineFields {
+		if strings.HasPrefix(full, pre) && !strings.Contains(strings.TrimPrefix(full, pre), ".") {
+			n := strings.TrimPrefix(full, pre)
+			found := false
+			for i := 0; i < st.NumFields(); i++ {
+				if st.Field(i).Name() == n {
+					found = true
+				}
+			}
+			if !found {
+				missing = append(missing, n)
+			}
+		}
+	}
+	var fresh []*types.Var
+	for i := 0; i < st.NumFields(); i++ {
+		if !baselineFields[pre+st.Field(i).Name()] {
+			fresh = append(fresh, st.Field(i))
+		}
+	}
+	out := map[string]string{}
+	if len(missing) == 1 && len(fresh) == 1 {
+		out[fresh[0].Name()] = missing[0]
+		return out
+	}
+	for _, m := range missing {
+		want := baselineFieldType[pre+m]
+		if want == "" {
+			continue
+		}
+		nm := 0
+		for _, m2 := range missing {
+			if baselineFieldType[pre+m2] == want {
+				nm++
+			}
+		}
+		var cands []*types.Var
+		for _, f := range fresh {
+			if types.TypeString(f.Type(), nil) == want {
+				cands = append(cands, f)
+			}
+		}
+		if nm == 1 && len(cands) == 1 {
+			out[cands[0].Name()] = m
+		}
+	}
+	return out
 }
